@@ -78,6 +78,9 @@ pub enum Class {
     StorePkt,
     /// fixed-metadata slots without a helper: r0 = *(r1+eoff) - *(r1+doff)  (address-free)
     SlotPlain,
+    /// stores at the bottom of its stack, calls a helper, then loads a packet byte with ldabs/ldind:
+    /// the helper call must change neither the stack nor what the packet loads address
+    ProbeHelperThenPkt,
     /// stores to its stack, then fails (calls a helper id that is never registered): interpreter only
     StackLeakWrite,
     /// returns stack slots it never wrote (0 on a fresh interpreter stack). Contains an unreachable
@@ -105,6 +108,7 @@ impl Class {
             Class::StackPlain => "StackPlain",
             Class::StorePkt => "StorePkt",
             Class::SlotPlain => "SlotPlain",
+            Class::ProbeHelperThenPkt => "ProbeHelperThenPkt",
             Class::StackLeakWrite => "StackLeakWrite",
             Class::StackLeakRead => "StackLeakRead",
         }
@@ -130,6 +134,7 @@ impl Class {
             Class::SlotPlain,
             Class::StackLeakWrite,
             Class::StackLeakRead,
+            Class::ProbeHelperThenPkt,
         ] {
             if c.name() == s {
                 return Some(c);
@@ -498,6 +503,38 @@ pub fn gen_probe_slot(tag: u8, doff: usize, eoff: usize, len_variant: bool) -> P
     p
 }
 
+pub fn gen_probe_helper_then_pkt(rng: &mut Rng, tag: u8, idx: usize, ind: bool) -> Prog {
+    let imm = (rng.next_u64() as i32) | 0x0101;
+    let mut b = B::new(tag);
+    b.i(STDW_IMM, 10, 0, -512, imm);
+    b.i(STDW_IMM, 10, 0, -8, imm);
+    b.i(MOV64_REG, 1, 10, 0, 0);
+    b.i(ADD64_IMM, 1, 0, 0, -512);
+    b.i(MOV64_IMM, 2, 0, 0, tag as i32);
+    b.i(MOV64_IMM, 3, 0, 0, 0);
+    b.i(MOV64_IMM, 4, 0, 0, 0);
+    b.i(MOV64_IMM, 5, 0, 0, 0);
+    b.i(CALL, 0, 0, 0, KEY_PROBE_STACK as i32);
+    if ind {
+        b.i(MOV64_IMM, 7, 0, 0, (idx / 2) as i32);
+        b.i(LD_IND_B, 0, 7, 0, (idx - idx / 2) as i32);
+    } else {
+        b.i(LD_ABS_B, 0, 0, 0, idx as i32);
+    }
+    // the stack slot must still hold what the program stored
+    b.i(LDXDW, 6, 10, -512, 0);
+    b.i(LSH64_IMM, 0, 0, 0, 32);
+    b.i(0x67, 6, 0, 0, 32); // lsh64 r6, 32
+    b.i(0x77, 6, 0, 0, 32); // rsh64 r6, 32
+    b.i(OR64_REG, 0, 6, 0, 0);
+    b.trailer(tag);
+    let mut p = mk(b.v, tag, Class::ProbeHelperThenPkt);
+    p.p0 = idx as i64;
+    p.p1 = imm as u32 as i64;
+    p.min_pkt = idx + 8;
+    p
+}
+
 pub fn gen_stack_leak_write(rng: &mut Rng, tag: u8) -> Prog {
     let mut b = B::new(tag);
     for off in LEAK_SLOTS {
@@ -571,6 +608,7 @@ pub fn gen_probe_pkt_ind(tag: u8, idx: usize, regval: usize, w: u8) -> Prog {
 
 /// ldxb r0, [r1 + idx] — packet byte on a Raw VM, metadata byte on an Mbuff VM.
 pub fn gen_probe_r1_load(tag: u8, idx: usize, kind: Kind) -> Prog {
+    assert!(idx <= i16::MAX as usize);
     let mut b = B::new(tag);
     b.i(LDXB, 0, 1, idx as i16, 0);
     b.trailer(tag);
@@ -588,7 +626,10 @@ pub fn gen_probe_stack(rng: &mut Rng, tag: u8) -> Prog {
     let imm = (rng.next_u64() as i32) | 1;
     let mut b = B::new(tag);
     b.i(STDW_IMM, 10, 0, -512, imm);
+    b.i(STDW_IMM, 10, 0, -8, imm ^ 0x55); // the highest eight bytes of the window
     b.i(STB_IMM, 10, 0, -1, 0x5a);
+    b.i(0x62, 10, 0, -508, imm >> 8); // stw: a 4-byte access straddling nothing, inside the lowest 8
+    b.i(STDW_IMM, 10, 0, -512, imm);
     b.i(MOV64_REG, 1, 10, 0, 0);
     b.i(ADD64_IMM, 1, 0, 0, -512);
     b.i(MOV64_IMM, 2, 0, 0, tag as i32);
